@@ -1,13 +1,19 @@
 package checks
 
 import (
+	"verif/c13"
+	"verif/c14"
 	"verif/c15"
 	"verif/c18"
 	"verif/c19"
 )
 
 func init() {
+	Registry["C13"] = c13.Run
+	Registry["C14"] = c14.Run
 	Registry["C15"] = c15.Run
 	Registry["C18"] = c18.Run
 	Registry["C19"] = c19.Run
+	Tools["c13worker"] = func([]string) int { return c13.Worker() }
+	Tools["c14worker"] = func([]string) int { return c14.Worker() }
 }
